@@ -7,6 +7,7 @@ use std::path::Path;
 use wax::Program;
 
 use crate::nodes::Block;
+use crate::process::utils::is_valid_identifier;
 use crate::rules::{
     Context, Rule, RuleConfiguration, RuleConfigurationError, RuleMetadata, RuleProcessResult,
     RuleProperties,
@@ -102,6 +103,13 @@ impl Bundler {
 
 impl Rule for Bundler {
     fn process(&self, block: &mut Block, context: &Context) -> RuleProcessResult {
+        if !is_valid_identifier(self.options.modules_identifier()) {
+            return Err(format!(
+                "invalid bundle configuration: `{}` cannot be used as the `modules_identifier` because it is not a valid identifier",
+                self.options.modules_identifier()
+            ));
+        }
+
         self.require_mode
             .process_block(block, context, &self.options)
     }
